@@ -1,6 +1,10 @@
 import H3.Lemmas.FrameStreamReader
 import H3.Lemmas.FrameLaws
 import H3.Lemmas.FrameRefSpec
+import H3.Lemmas.FrameStreamFast
+import H3.Lemmas.GenAgreeReq
+import H3.Lemmas.GenAgreeCtl
+import H3.Lemmas.FramingStrict
 /-! # C02 — frame boundaries follow RFC 9114 §7.1 exactly, independent of chunking
 
 Property theorems only.  Models: `H3.Frame` (`Frame::decode`, `proto/frame.rs`), `H3.FS`
@@ -596,5 +600,152 @@ example : readerLoop 40 {} [.chunk [0x00, 0x02, 0xaa, 0xbb, 0x07, 0x01, 0x05], .
 example : readerLoop 40 {} [.chunk [0x00], .pend, .chunk [0x02, 0xaa], .chunk [0xbb, 0x07],
       .pend, .chunk [0x01], .chunk [0x05], .fin] =
     [.frame (.data 2), .data [0xaa], .data [0xbb], .frame (.goaway 5), .none] := by decide +kernel
+
+/-! ## 6. The error code at the two callers -/
+
+/-- Corollary at the two call sites of the frame layer (request stream:
+    `handle_frame_stream_error_on_request_stream`; control stream: `ConnectionInner::poll_control`).
+
+    (a) A complete frame of a type with a meaning whose payload is longer or shorter than its fields
+    by the §7.2 grammar (`classify … = .malformed`) is answered `Malformed` by `Frame::decode`; the
+    frame layer reports it as `Proto(Malformed)` (`C02_reader_observes_spec`), a stream that FIN cuts
+    inside a frame as `UnexpectedEnd` (`C02_truncation_reported`).
+    (b) On a request stream both become the CONNECTION error H3_FRAME_ERROR: that code goes into the
+    connection's error cell if no error is there yet, and the caller is told the error in the cell.
+    (c) On the control stream both are the connection error H3_FRAME_ERROR, before and after SETTINGS.
+    (d) The two code tables of the models are the arms of `got_frame_error`, of
+    `handle_frame_stream_error_on_request_stream` and of `poll_control` as the translator re-reads
+    them from the Rust sources on every run (`H3.Gen.FrameErrCodes`, `H3.Gen.CtlArms`).
+
+    Not covered, on purpose: a SETTINGS payload that ends inside an entry is answered
+    `Settings(Malformed)`, which `got_frame_error` turns into H3_SETTINGS_ERROR — reading R-02s,
+    the `example` below.  (0x0106 = H3_FRAME_ERROR, RFC 9114 §8.1.) -/
+theorem C02_frame_error_code_at_callers :
+    (∀ (w : Varint.Bytes), WF w → ∀ ty r1 len r2, rfcDecode w = some (ty, r1) → ty ≠ 0x41 →
+      rfcDecode r1 = some (len, r2) → ty ≠ 0x0 → len ≤ r2.length → isKnown ty = true →
+      classify ty (r2.take len) = .malformed → H3.Frame.decode w = .error .malformed) ∧
+    (∀ {σ : Type} (st : H3.ReqRecv.St σ),
+      (H3.ReqRecv.fsErr st (.errProto .malformed)).1 = .errConn (st.env.cell.getD 0x0106) ∧
+      (H3.ReqRecv.fsErr st .errEnd).1 = .errConn (st.env.cell.getD 0x0106) ∧
+      (H3.ReqRecv.fsErr st (.errProto .malformed)).2.env.cell = some (st.env.cell.getD 0x0106) ∧
+      (H3.ReqRecv.fsErr st .errEnd).2.env.cell = some (st.env.cell.getD 0x0106)) ∧
+    (∀ c : H3.Control.Conn,
+      H3.Control.classify c (.proto .malformed) = .error 0x0106 ∧
+      H3.Control.classify c .truncated = .error 0x0106) ∧
+    (H3.ReqRecv.frameErrCode .malformed = Gen.FrameErrCodes.code (H3.GenAgree.Req.protoOf .malformed) ∧
+      H3.Control.protoCode .malformed = Gen.FrameErrCodes.code (H3.GenAgree.Ctl.protoOf .malformed) ∧
+      Gen.FrameErrCodes.decoder .malformed = .proto (H3.GenAgree.Req.protoOf .malformed) ∧
+      Gen.FrameErrCodes.code .malformed = 0x0106 ∧
+      Gen.FrameErrCodes.requestStreamUnexpectedEnd = 0x0106 ∧
+      Gen.CtlArms.onTruncated = .err 0x0106 ∧ Gen.CtlArms.onProto = .gotFrameError) := by
+  refine ⟨?_, ?_, ?_, ?_⟩
+  · intro w hwf ty r1 len r2 h1 hty h2 hd hle hk hc
+    have h := (((C02_frame_decode_is_segment w hwf).2 ty r1 h1 hty).2 len r2 h2).2.2.2 hd hle
+    have h' := h.2 hk
+    rw [hc] at h'
+    exact h'
+  · intro σ st
+    have hp := (H3.GenAgree.Req.fsErr_agrees st).2.1 .malformed
+    have he := (H3.GenAgree.Req.fsErr_agrees st).2.2
+    rw [hp, he]
+    cases hc : st.env.cell <;>
+      simp [H3.ReqRecv.connErr, hc, Gen.FrameErrCodes.code, H3.GenAgree.Req.protoOf,
+        Gen.FrameErrCodes.requestStreamUnexpectedEnd]
+  · intro c
+    exact ⟨rfl, rfl⟩
+  · exact ⟨H3.GenAgree.Req.frameErrCode_agrees .malformed, H3.GenAgree.Ctl.protoCode_agrees .malformed,
+      rfl, rfl, rfl, rfl, rfl⟩
+
+-- non-vacuity: GOAWAY with two bytes after its varint, on a request stream with an empty error cell
+-- and on a control stream: `Malformed`, connection error 0x0106 at both
+example : H3.Frame.decode [0x07, 0x03, 0x01, 0x00, 0x00] = .error .malformed ∧
+    (H3.ReqRecv.fsErr ({ src := () } : H3.ReqRecv.St Unit) (.errProto .malformed)).1 = .errConn 0x106 ∧
+    H3.Control.classify {} (.proto .malformed) = .error 0x106 :=
+  ⟨C02_frame_error_code_at_callers.1 [0x07, 0x03, 0x01, 0x00, 0x00] (by unfold WF; decide) 0x7 [0x03, 0x01, 0x00, 0x00]
+      3 [0x01, 0x00, 0x00] (by decide) (by decide) (by decide) (by decide) (by decide) (by decide) (by decide),
+    (C02_frame_error_code_at_callers.2.1 _).1, (C02_frame_error_code_at_callers.2.2.1 {}).1⟩
+
+-- an error already in the cell is the one reported (C05): the frame error does not replace it
+example : (H3.ReqRecv.fsErr ({ src := (), env := { cell := some 0x101 } } : H3.ReqRecv.St Unit) .errEnd).1 =
+    .errConn 0x101 := (C02_frame_error_code_at_callers.2.1 _).2.1
+
+-- Reading R-02s (DESIGN.md section 9), the witness that the statement above cannot be extended to
+-- SETTINGS: the payload `06` (identifier 6, no value) of the complete frame `04 01 06` ends inside an
+-- entry (`short`: RFC 9114 §7.1 ¶5 ⇒ H3_FRAME_ERROR); the strict oracle says `malformed`,
+-- `Frame::decode` says `Settings(Malformed)`, and both callers turn that into H3_SETTINGS_ERROR (0x0109)
+example : settingsVerdict [0x06] = .short ∧ classifyS false 0x4 [0x06] = .malformed ∧
+    classifyS true 0x4 [0x06] = .malformed ∧
+    H3.Frame.decode [0x04, 0x01, 0x06] = .error (.settings .malformed) ∧
+    H3.ReqRecv.frameErrCode (.settings .malformed) = 0x109 ∧
+    H3.Control.protoCode (.settings .malformed) = 0x109 ∧
+    Gen.FrameErrCodes.code .settings = 0x109 := by decide
+
+/-! ## 7. The strict oracle and the lenient one; what the driver evaluates -/
+
+/-- The strict SETTINGS reading refines the lenient one and differs from it only on payloads that
+    end inside an entry: for every other payload (`ok`, `ids`) `classifyS` is `classify`, whichever
+    rule is preferred; on a payload that ends inside an entry `classify` says `badSettings` and
+    `classifyS` says `malformed` (H3_FRAME_ERROR) — or, only if a reserved / repeated defined
+    identifier was received as well, `badSettings` under the other preference.  Frames of every other
+    type are classified alike. -/
+theorem C02_strict_reading_differs_only_on_short_settings (b : Bool) (ty : Nat) (p : Varint.Bytes) :
+    (ty ≠ 0x4 → classifyS b ty p = classify ty p) ∧
+    (ty = 0x4 →
+      match settingsVerdict p with
+      | .ok => classifyS b ty p = .okSettings ∧ classify ty p = .okSettings
+      | .ids => classifyS b ty p = .badSettings ∧ classify ty p = .badSettings
+      | .short => classifyS b ty p = .malformed ∧ classify ty p = .badSettings
+      | .shortAndIds => classifyS b ty p = (if b then .badSettings else .malformed) ∧
+          classify ty p = .badSettings) := by
+  refine ⟨fun h => by simp [classifyS, h], fun h => ?_⟩
+  subst h
+  have he := entries_pairs (p.length + 1) p
+  cases hq : pairs (p.length + 1) p with
+  | some ps =>
+    rw [hq] at he
+    have hv : settingsVerdict p = if badIds ps then .ids else .ok := by
+      simp only [settingsVerdict, he, receivedIds]
+      cases badIds ps <;> rfl
+    have hc : classify 4 p = if badIds ps then .badSettings else .okSettings := by
+      simp [classify, hq]
+      rfl
+    cases hb : badIds ps <;> simp [hv, hc, hb, classifyS]
+  | none =>
+    rw [hq] at he
+    have hc : classify 4 p = .badSettings := by simp [classify, hq]
+    have hne : ((entries (p.length + 1) p).2 == Cut.clean) = false := by simpa using he
+    cases hb : badIds (receivedIds (entries (p.length + 1) p)) <;>
+      simp [settingsVerdict, hne, hb, classifyS, hc]
+
+example : settingsVerdict [0x06, 0x10, 0x21] = .short ∧ settingsVerdict [0x00, 0x00, 0x06] = .shortAndIds ∧
+    settingsVerdict [0x06, 0x10, 0x06] = .shortAndIds ∧ settingsVerdict [0x06, 0x10, 0x06, 0x11] = .ids ∧
+    settingsVerdict [0x06, 0x10, 0x21, 0x11] = .ok := by decide
+
+/-- The copy of the segmentation that the strict oracle uses (`observeWith`) is `observe` when it is
+    given `classify`: the strict oracle `observeS` differs from `observe` in the classification of
+    complete SETTINGS frames only. -/
+theorem C02_observeWith_classify (fuel : Nat) (w : Varint.Bytes) (e : Ending) :
+    observeWith classify fuel w e = observe fuel w e := by
+  induction fuel generalizing w with
+  | zero => rfl
+  | succ n ih =>
+    unfold observeWith observe
+    simp only [ih]
+    rfl
+
+example : observeS false 4 [0x04, 0x01, 0x06] .fin = [.malformed] ∧
+    observe 4 [0x04, 0x01, 0x06] .fin = [.badSettings] ∧
+    observeS false 8 [0x04, 0x02, 0x06, 0x10, 0x07, 0x01, 0x05] .fin = observe 8 [0x04, 0x02, 0x06, 0x10, 0x07, 0x01, 0x05] .fin := by
+  decide
+
+/-- What the driver evaluates is the model: the reader loop and the call runner that `h3drv` runs
+    (`readerLoopF`, `runCallsF`: they ask the `expected` memo before flattening the buffer) are the
+    functions `readerLoop` and `runCalls` the theorems above speak about. -/
+theorem C02_driver_runs_the_model (fuel : Nat) (s : St) (script : List Ev) (calls : List Call) :
+    readerLoopF fuel s script = readerLoop fuel s script ∧ runCallsF s script calls = runCalls s script calls :=
+  ⟨readerLoopF_eq fuel s script, runCallsF_eq s script calls⟩
+
+example : readerLoopF 40 {} [.chunk [0x01, 0x03, 0xaa], .chunk [0xbb], .chunk [0xcc, 0x07, 0x01, 0x05], .fin] =
+    [.frame (.headers [0xaa, 0xbb, 0xcc]), .frame (.goaway 5), .none] := by decide +kernel
 
 end H3.Props.C02
